@@ -58,7 +58,7 @@ KINDS = {
     'li', 'mul', 'div', 'floordiv', 'ceildiv', 'bin', 'neg', 'inv', 'not', 'cmp',
     'and', 'or', 'band', 'bor', 'ite', 'tuple', 'list', 'set', 'dict', 'kv',
     'concat', 'fstr', 'ss', 'cat', 'adj', 'phi', 'after', 'elem', 'idx', 'bv',
-    'comp', 'gen', 'lam', 'fn', 'enter', 'yieldv', 'unk', 'await', 'starred', 'mut',
+    'comp', 'gen', 'lam', 'fn', 'enter', 'yieldv', 'unk', 'await', 'starred', 'mut', 'nth',
 }
 
 
@@ -777,6 +777,8 @@ def show(t, depth=0):
         return f'enter({s(t[1])})'
     if k == 'mut':
         return f'{s(t[1])}′{t[2]}'
+    if k == 'nth':
+        return f'{s(t[2])}#{t[1]}'
     if k == 'unk':
         return f'<?{t[1]}>'
     if k == 'yieldv':
